@@ -149,10 +149,24 @@ LIBC_TABLE_C05 = {
 }
 
 
-def under_random_guard(f, n):
+def under_random_guard(f, n, depth=0):
     """Name of an EXT_RANDOM_* bit if call n is only reachable while some such bit is set: with every test of the
     form `X & EXT_RANDOM_*` decided false the call is unreachable (if / ternary / early return alike; the tested
-    word may be a local copy of the extensions)."""
+    word may be a local copy of the extensions).  A static helper inherits the guard of its call sites when every one
+    of them (and every reference to it) is guarded."""
+    from .prog import edpe_blocks, strip, const_value
+    r = _under_random_guard_local(f, n)
+    if r is None and f.static and depth < 2:
+        sites = [(g, c) for g in f.unit.funcs.values() if g is not f for c in g.calls(f.name)]
+        refs = sum(1 for g in f.unit.funcs.values() for x in g.walk() if x["k"] == "DeclRefExpr" and x.get("n") == f.name)
+        if sites and refs == len(sites):
+            rs = [under_random_guard(g, c, depth + 1) for g, c in sites]
+            if all(rs):
+                return rs[0]
+    return r
+
+
+def _under_random_guard_local(f, n):
     from .prog import edpe_blocks, strip, const_value
     bits = set()
 
